@@ -41,7 +41,10 @@ func issue(k ntske.Key) ([]byte, error) {
 // redeem opens a cookie the way both listeners do (server_ip.go, server_scion.go): decode, look the key up by the
 // identifier the cookie carries, decrypt. (The listeners' lookup is Provider.Lookup where the tree has it, else
 // Provider.Get of the decoded identifier.)
-func redeem(p *ntske.Provider, cookie []byte) string {
+func redeem(p *ntske.Provider, cookie []byte) string { return redeemKeys(p, cookie, sessC2S, sessS2C) }
+
+// redeemKeys: with nil keys the session keys inside the cookie are not compared.
+func redeemKeys(p *ntske.Provider, cookie, c2s, s2c []byte) string {
 	var e ntske.EncryptedServerCookie
 	if err := e.Decode(cookie); err != nil {
 		return "cookie does not decode: " + err.Error()
@@ -62,7 +65,7 @@ func redeem(p *ntske.Provider, cookie []byte) string {
 	if err != nil {
 		return fmt.Sprintf("cookie does not open under key %d: %v", k.ID, err)
 	}
-	if !bytes.Equal(sc.C2S, sessC2S) || !bytes.Equal(sc.S2C, sessS2C) {
+	if c2s != nil && (!bytes.Equal(sc.C2S, c2s) || !bytes.Equal(sc.S2C, s2c)) {
 		return "cookie opens to other session keys"
 	}
 	return ""
